@@ -1,6 +1,6 @@
 /-
   C20 — source ties for the basic benchmark functions of `benchmarks/_optproblems.py` that are pure
-  elementwise numpy code: `OneMax.f`, `Sphere.f`, `Schwefe1_2.f`, `Rosenbrock.f`, `Rastrigin.f`, `Griewank.f`, `HighConditionedElliptic.f`, `Ackley.f`, `ExpandedScaffers_F6.Scaffes_F6`.
+  elementwise numpy code: `OneMax.f`, `Sphere.f`, `Schwefe1_2.f`, `Rosenbrock.f`, `Rastrigin.f`, `Griewank.f`, `HighConditionedElliptic.f`, `Ackley.f`, `ExpandedScaffers_F6.Scaffes_F6`, and the wrapper `TestShiftedFunction.shift` / `__call__`.
   `TFV/Generated/Src/Bench_*_f.lean` are re-translated from /repo on every run (harness/extract/np2lean.py, floats
   read as field elements, `cos(2πa)` a function parameter); on every rectangular population they compute, row by
   row, the functions of `TFV.Model.Bench` whose lower bounds and optima the C20 theorems prove.
@@ -16,6 +16,8 @@ import TFV.Generated.Src.Bench_Griewank_f
 import TFV.Generated.Src.Bench_Elliptic_f
 import TFV.Generated.Src.Bench_Ackley_f
 import TFV.Generated.Src.Bench_ScafferPair
+import TFV.Generated.Src.Bench_Shifted_shift
+import TFV.Generated.Src.Bench_Shifted_call
 import TFV.Properties.Bench
 import Mathlib.Tactic.Ring
 import Mathlib.Tactic.NormNum
@@ -318,5 +320,46 @@ theorem C20_src_scaffer_pair_reject (sn2 : Rat → Rat) (m : Mat) (h2 : m.ncols 
 example : Bench_ScafferPair (fun s => if s = 0 then 0 else 1) { ncols := 2, rows := [[0, 0], [30, 10]] } = some [0, 5 / 8] := by
   rw [C20_src_scaffer_pair _ _ (by decide)]
   norm_num [scafferPair]
+
+/-- `TestShiftedFunction.shift` on a population with `D` columns and a shift table with at least `D` entries: the first `D` entries are
+    subtracted from every row -/
+theorem C20_src_shift (o : List Rat) (m : Mat) (hlen : m.ncols ≤ o.length) :
+    Bench_Shifted_shift o m = some { ncols := m.ncols, rows := m.rows.map fun r => vsub r (o.take m.ncols) } := by
+  unfold Bench_Shifted_shift
+  have h : (o.take m.ncols).length = m.ncols := by simp [List.length_take]; omega
+  simp only [NpQ.subRow, h, if_true]
+  rfl
+
+/-- a shift table that is too short is a shape error - unless it has length one or the population has one column, which numpy broadcasts -/
+theorem C20_src_shift_reject (o : List Rat) (m : Mat) (hlen : o.length < m.ncols) (h1 : o.length ≠ 1) (hc : m.ncols ≠ 1) :
+    Bench_Shifted_shift o m = none := by
+  unfold Bench_Shifted_shift
+  have h : (o.take m.ncols).length = o.length := by simp [List.length_take]; omega
+  have hne : ¬ o.length = m.ncols := by omega
+  simp [NpQ.subRow, h, hne, h1, hc]
+
+/-- `TestShiftedFunction.__call__` with a row-wise base function `g`: every row `x` is mapped to `g (x − o[:D]) + bias`, the model's `shifted` -/
+theorem C20_src_shifted_call (g : List Rat → Rat) (f : Mat → Option (List Rat)) (hf : ∀ z : Mat, f z = some (z.rows.map g))
+    (o : List Rat) (bias : Rat) (m : Mat) (hlen : m.ncols ≤ o.length) :
+    Bench_Shifted_call f o bias m = some (m.rows.map (shifted g (o.take m.ncols) bias)) := by
+  unfold Bench_Shifted_call
+  rw [C20_src_shift o m hlen]
+  simp only [bind, Option.bind, hf, pure, List.map_map]
+  rfl
+
+/-- bound and optimum read off the TRANSLATED wrapper: for a non-negative row-wise base function vanishing at the origin, every value the
+    call returns is at least the bias, and the row `o[:D]` (the shifted optimal point for the dimension in use) is mapped to the bias -/
+theorem C20_src_shifted_optimum (g : List Rat → Rat) (f : Mat → Option (List Rat)) (hf : ∀ z : Mat, f z = some (z.rows.map g))
+    (hg : ∀ z, 0 ≤ g z) (hg0 : ∀ n, g (List.replicate n 0) = 0)
+    (o : List Rat) (bias : Rat) (m : Mat) (hlen : m.ncols ≤ o.length) :
+    (∃ ys, Bench_Shifted_call f o bias m = some ys ∧ ys.length = m.rows.length ∧ ∀ y ∈ ys, bias ≤ y) ∧
+    Bench_Shifted_call f o bias { ncols := m.ncols, rows := [o.take m.ncols] } = some [bias] := by
+  refine ⟨⟨_, C20_src_shifted_call g f hf o bias m hlen, by simp, ?_⟩, ?_⟩
+  · intro y hy
+    obtain ⟨r, _, rfl⟩ := List.mem_map.mp hy
+    exact (TFV.Bench.C20_shifted g (o.take m.ncols) bias hg (hg0 _)).1 r
+  · rw [C20_src_shifted_call g f hf o bias { ncols := m.ncols, rows := [o.take m.ncols] } hlen]
+    simp only [List.map_cons, List.map_nil]
+    rw [(TFV.Bench.C20_shifted g (o.take m.ncols) bias hg (hg0 _)).2]
 
 end TFV.Properties.Src.BenchKernels
